@@ -42,6 +42,30 @@ struct Client {
     fragment_pending: bool, // an unterminated line fragment sits in the server's input buffer
 }
 
+// serve the clients registered so far while somebody else takes its time (only used while every
+// one of them is a prompt responder)
+fn service_prompt(w: &mut World, clients: &mut Vec<Client>) {
+    for cl in clients.iter_mut() {
+        let ls = w.drain(cl.conn);
+        for l in &ls {
+            if l.contains(" PING ") {
+                cl.pings.push(w.now_ms());
+                if matches!(cl.pattern, Pattern::Always | Pattern::AlwaysOddToken) {
+                    w.send_line(cl.conn, "PONG :LALAL");
+                    cl.answered += 1;
+                } else if cl.first_unanswered.is_none() {
+                    cl.first_unanswered = Some(w.now_ms());
+                }
+            } else if l.contains(" ERROR") {
+                cl.error_seen = true;
+            }
+        }
+        if w.conns[cl.conn].eof && cl.eof_ms.is_none() {
+            cl.eof_ms = Some(w.now_ms());
+        }
+    }
+}
+
 pub fn check(c: &KaCase, st: &mut Stats) -> Result<(), Viol> {
     let mut s = S::new(&c.seeds);
     let seed = s.raw() as u64;
@@ -63,8 +87,19 @@ pub fn check(c: &KaCase, st: &mut Stats) -> Result<(), Viol> {
     let n = 1 + s.pick(4);
     let mut log: Vec<String> = vec![format!("ping_timeout={}s pong_timeout={}s step={}ms", p, q, step_ms)];
     let mut clients: Vec<Client> = vec![];
+    let mut waited_for_refused = false;
+    // (the connection that will be refused claims k0 while that nick is still free)
+    let pre_conn: Option<usize> = if n >= 2 && s.chance(30) {
+        let c = w.connect();
+        w.send_line(c, "NICK k0");
+        w.settle();
+        w.drain(c);
+        Some(c)
+    } else {
+        None
+    };
     for i in 0..n {
-        let pattern = match s.pick(10) {
+        let pattern = match if i == 0 && pre_conn.is_some() { 0 } else { s.pick(10) } {
             0 | 1 => Pattern::Always,
             2 | 3 => Pattern::Never,
             4 | 5 | 6 => Pattern::StopsAfter(1 + s.pick(5)),
@@ -80,10 +115,36 @@ pub fn check(c: &KaCase, st: &mut Stats) -> Result<(), Viol> {
                 }
             }
         };
-        let conn = w.connect();
+        let conn = if i == 1 && pre_conn.is_some() { pre_conn.unwrap() } else { w.connect() };
         let nick = format!("k{}", i);
-        w.send_line(conn, &format!("NICK {}", nick));
-        w.send_line(conn, &format!("USER u{} 0 * :Keep Alive", i));
+        // some clients are first refused (they ask for the nick of the first client, USER before
+        // NICK so that the refusal comes at completion), wait longer than ping_timeout and only
+        // then register under their own nick: the keep-alive starts with the registration
+        if i == 1 && pre_conn.is_some() {
+            // k0 has registered meanwhile: the USER that completes this connection is refused (433)
+            w.send_line(conn, &format!("USER u{} 0 * :Keep Alive", i));
+            w.settle();
+            let refused = w.drain(conn);
+            log.push(format!("t={} {} first asks for k0: {:?}", w.now_ms(), nick, refused.iter().map(|l| l.split(' ').nth(1).unwrap_or("").to_string()).collect::<Vec<_>>()));
+            // everybody registered so far keeps answering meanwhile
+            let wait_ms = p * 1000 + 300 + s.pick(((q * 1000).saturating_sub(500)).max(1) as usize) as u64;
+            let mut waited = 0;
+            while waited < wait_ms {
+                let d = step_ms.min(wait_ms - waited);
+                w.advance(Duration::from_millis(d));
+                waited += d;
+                service_prompt(&mut w, &mut clients);
+                let early = w.drain(conn);
+                if early.iter().any(|l| l.contains(" PING ")) {
+                    return Err(Viol::new("C17.ping_cadence", "ping-before-registration", format!("{} got a server PING before it was registered: {:?}", nick, early)).with_transcript(log.clone()));
+                }
+            }
+            w.send_line(conn, &format!("NICK {}", nick));
+            waited_for_refused = true;
+        } else {
+            w.send_line(conn, &format!("NICK {}", nick));
+            w.send_line(conn, &format!("USER u{} 0 * :Keep Alive", i));
+        }
         w.settle();
         let ls = w.drain(conn);
         if !ls.iter().any(|l| l.contains(" 001 ")) {
@@ -99,7 +160,7 @@ pub fn check(c: &KaCase, st: &mut Stats) -> Result<(), Viol> {
         }
         // some prompt responders leave the beginning of a line in the server's input buffer and
         // complete it only when the next PING arrives: pending input must not hold back output
-        let fragment = pattern == Pattern::Always && s.chance(20);
+        let fragment = pattern == Pattern::Always && !(i == 0 && pre_conn.is_some()) && s.chance(20);
         if fragment {
             w.send_bytes(conn, b"PRIV");
             w.settle();
@@ -127,6 +188,9 @@ pub fn check(c: &KaCase, st: &mut Stats) -> Result<(), Viol> {
             // (kept well below one ping period in total so that no PING predates the main loop)
             let max = ((p * 1000) / (3 * n as u64)).clamp(1, 700) as usize;
             w.advance(Duration::from_millis(1 + s.pick(max) as u64));
+            if waited_for_refused {
+                service_prompt(&mut w, &mut clients);
+            }
         }
     }
     let horizon_ms: u128 = (p as u128 * 1000) * (4 + s.pick(8)) as u128 + (q as u128 * 1000) + 2000;
@@ -223,6 +287,8 @@ pub fn check(c: &KaCase, st: &mut Stats) -> Result<(), Viol> {
                 clients[ci].my_pings += 1;
                 let t = format!("my{}", clients[ci].my_pings);
                 // (the RFC form with a second parameter naming the server is answered alike)
+                // rarely a token close to the line limit (the PONG is longer than the PING)
+                let t = if clients[ci].my_pings % 11 == 7 { format!("{}{}", "T".repeat(1975), t) } else { t };
                 let form = match clients[ci].my_pings % 3 {
                     0 => format!("PING {} irc.irc", t),
                     1 => format!("PING :{}", t),
